@@ -28,7 +28,9 @@
 //	DL op:d,.. / SD …         (hdl, half of the machines) the same run on a second VM with simulated
 //	                          opcode latencies (VM.SimDelayMap): its delivered streams
 //
-// Usage: c02 net|sim|hdl <graphs> [<ticks>]   |   c02 replaynet|replaysim|replayhdl <file>
+// mode `dly`: as hdl without the HDL and without the per-tick lines: SS and several DL/SD pairs.
+//
+// Usage: c02 net|sim|hdl|dly <graphs> [<ticks>]   |   c02 replaynet|replaysim|replayhdl|replaydly <file>
 package main
 
 import (
@@ -102,7 +104,7 @@ type caseSpec struct {
 	ticks int
 	stims []stim // replay: explicit stimulus
 	hasE  bool   // replay: an E line was given
-	delays []opDelay // simulated opcode latencies of the second simulator run (hdl mode)
+	delays [][]opDelay // simulated opcode latencies: one extra simulator run per assignment (hdl / dly modes)
 }
 
 // ---------------------------------------------------------------------------------- building
@@ -395,21 +397,7 @@ func genCase(r *common.Rng, ticks int, full bool) *caseSpec {
 	// those built with fan-out to several processors): the
 	// property holds "regardless of how many clock cycles either takes"
 	if fanny || r.Chance(1, 2) {
-		pool := []string{"inc", "add", "cpy", "nop", "j", "i2rw", "r2owa", "rset", "dec", "mult", "clr"}
-		n := 1 + r.Intn(3)
-		seen := map[string]bool{}
-		for k := 0; k < n; k++ {
-			op := pool[pick(r, []int{5, 3, 3, 3, 3, 5, 4, 1, 1, 1, 1})]
-			if seen[op] {
-				continue
-			}
-			seen[op] = true
-			d := 1 + r.Intn(12)
-			if fanny && d < 5 {
-				d += 6 // long enough for a sibling consumer to finish its transfer meanwhile
-			}
-			c.delays = append(c.delays, opDelay{op, d})
-		}
+		c.delays = genDelaySets(r, fanny)
 	}
 	mask := ^uint64(0)
 	if c.rsize < 64 {
@@ -433,6 +421,36 @@ func genCase(r *common.Rng, ticks int, full bool) *caseSpec {
 		c.env.odel = append(c.env.odel, genDelays(r))
 	}
 	return c
+}
+
+// genDelaySets: one to three assignments opcode -> idle ticks after it retires.  With fan-out to
+// several processors (`long`) the delays are long enough to cover a whole valid-low window of the
+// producer while a sibling consumer finishes its transfer.
+func genDelaySets(r *common.Rng, long bool) [][]opDelay {
+	pool := []string{"inc", "add", "cpy", "nop", "j", "i2rw", "r2owa", "rset", "dec", "mult", "clr"}
+	nsets := 1
+	if long {
+		nsets = 3
+	}
+	var sets [][]opDelay
+	for k := 0; k < nsets; k++ {
+		var set []opDelay
+		seen := map[string]bool{}
+		for n := 1 + r.Intn(3); n > 0; n-- {
+			op := pool[pick(r, []int{5, 3, 3, 3, 3, 6, 3, 1, 1, 1, 1})]
+			if seen[op] {
+				continue
+			}
+			seen[op] = true
+			d := 1 + r.Intn(12)
+			if long && r.Chance(2, 3) {
+				d = 8 + r.Intn(16)
+			}
+			set = append(set, opDelay{op, d})
+		}
+		sets = append(sets, set)
+	}
+	return sets
 }
 
 func genDelays(r *common.Rng) []int {
@@ -1094,7 +1112,9 @@ func runCase(r *common.Rng, c *caseSpec, mode string) {
 				env.step(ov, vm.OutputsValid, vm.InputsRecv)
 				cur = env.drive
 			}
-			out.Line("%s", cur.line())
+			if mode != "dly" {
+				out.Line("%s", cur.line())
+			}
 			for i := 0; i < bm.Inputs && i < len(cur.in); i++ {
 				vm.Inputs_regs[i] = typed(c.rsize, cur.in[i])
 				vm.InputsValid[i] = cur.iv[i]
@@ -1106,7 +1126,9 @@ func runCase(r *common.Rng, c *caseSpec, mode string) {
 				out.Line("X err")
 				break
 			}
-			out.Line("%s", dumpVM(vm))
+			if mode != "dly" {
+				out.Line("%s", dumpVM(vm))
+			}
 		}
 		if !c.env.noise && c.stims == nil {
 			ss := make([]string, len(env.streams))
@@ -1115,8 +1137,10 @@ func runCase(r *common.Rng, c *caseSpec, mode string) {
 			}
 			out.Line("SS %s", strings.Join(ss, ";"))
 		}
-		if mode == "hdl" && len(c.delays) > 0 && !c.env.noise && c.stims == nil {
-			runDelayed(c, bm, n)
+		if (mode == "hdl" || mode == "dly") && !c.env.noise && c.stims == nil {
+			for _, set := range c.delays {
+				runDelayed(c, set, bm, n)
+			}
 		}
 		return ""
 	})
@@ -1131,10 +1155,10 @@ func runCase(r *common.Rng, c *caseSpec, mode string) {
 // after the opcodes named in c.delays (VM.SimDelayMap, what -sim-delays-file sets); 4 x the ticks
 // since it is slower.  Prints  DL op:d,...  and  SD <streams>  (no per-tick dump: the models
 // have no DelayCounter; only the delivered streams are compared).
-func runDelayed(c *caseSpec, bm *bondmachine.Bondmachine, ticks int) {
-	parts := make([]string, len(c.delays))
+func runDelayed(c *caseSpec, set []opDelay, bm *bondmachine.Bondmachine, ticks int) {
+	parts := make([]string, len(set))
 	sd := simbox.NewSimDelays()
-	for i, d := range c.delays {
+	for i, d := range set {
 		parts[i] = d.op + ":" + strconv.Itoa(d.d)
 		sd.OpcodeDelays[d.op] = simbox.DelayDistribution{int32(d.d): 1.0}
 	}
@@ -1298,12 +1322,14 @@ func replay(path string, mode string) {
 			}
 		case "DL":
 			if c != nil && len(fs) > 1 {
+				var set []opDelay
 				for _, kv := range strings.Split(fs[1], ",") {
 					x := strings.SplitN(kv, ":", 2)
 					if len(x) == 2 {
-						c.delays = append(c.delays, opDelay{x[0], atoi(x[1])})
+						set = append(set, opDelay{x[0], atoi(x[1])})
 					}
 				}
+				c.delays = append(c.delays, set)
 			}
 		case "V":
 			if c != nil {
@@ -1446,6 +1472,11 @@ func main() {
 			fmt.Println(files["bondmachine.v"])
 		case "sim":
 			c.env.noise = r.Chance(1, 3)
+			runCase(r, c, mode)
+		case "dly": // simulator with opcode latencies against the simulator without (no HDL, no dump)
+			if len(c.delays) < 3 {
+				c.delays = append(c.delays, genDelaySets(r, true)...)
+			}
 			runCase(r, c, mode)
 		default:
 			runCase(r, c, mode)
